@@ -42,6 +42,7 @@ class Trace:
         self.binds = [(o.split(" -> ")[1].strip() if " -> " in o else None) for o in sc["ops"]]
         n = len(self.ops)
         self.res = [None] * n; self.dev = [[] for _ in range(n)]; self.cb = [[] for _ in range(n)]; self.st = [dict() for _ in range(n)]
+        self.intl = [None] * n       # the manager's internal-state line after op k (handle tables, clock counter)
         for l in sc["impl"]:
             t = l.split()
             if t[0] == "IMG":
@@ -53,6 +54,7 @@ class Trace:
             elif t[0] == "DEV": self.dev[k].append(t[2:])
             elif t[0] == "CB": self.cb[k].append(t[2:])
             elif t[0] == "ST": self.st[k][t[2]] = t[3:]
+            elif t[0] == "INT": self.intl[k] = l
         self.writes = collections_default()
         if sc.get("writes") and os.path.exists(sc["writes"]):
             for l in open(sc["writes"]):
@@ -70,6 +72,30 @@ class Trace:
 
 def collections_default():
     return {}
+
+def int_fields(line):
+    """(clock counter, {file handle: dict(mtime=.., size=.., dirty=..)}) from an INT line, or (None, {})"""
+    if not line or " files=[" not in line:
+        return None, {}
+    clk = None
+    if " clk=" in line:
+        clk = int(line.rsplit(" clk=", 1)[1].split()[0])
+    body = line.split(" files=[", 1)[1].split("]", 1)[0]
+    files = {}
+    for item in body.split(";"):
+        f = item.split(":")
+        if len(f) >= 12:
+            files[int(f[0])] = dict(size=int(f[6]), dirty=int(f[8]), mtime=f[11])
+    return clk, files
+
+def clock_ts(k):
+    """the counter clock of both runners (harness/src/bin/fsrun.rs Clock, FsFat.clock_ts)"""
+    return "%d-%d-%d-%d-%d-%d" % (10 + k % 100, k % 12, k % 28, k % 24, k % 60, (k * 7) % 60)
+
+def fat_stamp(ts):
+    """(date, time) as the FAT specification encodes a timestamp given as year_since_1970-month0-day0-h-m-s"""
+    y, mo, d, h, mi, sec = (int(x) for x in ts.split("-"))
+    return ((y - 10) << 9) | ((mo + 1) << 5) | (d + 1), (h << 11) | (mi << 5) | (sec // 2)
 
 def images(tr, dev0):
     """generator of (k, image after op k) - one shared dict mutated in place"""
@@ -93,6 +119,7 @@ class SpecFS:
         self.touched = set()
         self.unknown = set()
         self.deleted = set()
+        self.wstamp = {}   # path -> clock timestamp of the last successful write in this history (None: not known)
 
 def f_known(sp, slot):
     f = sp.open.get(slot)
@@ -141,7 +168,7 @@ def run_spec(tr, dev0, slot_of_vol, checks=("read", "state")):
                 if p_ in sp.flushed and sp.flushed[p_][0] == bytes(sp.files.get(p_, b"")):
                     continue
                 if f["mode"] != "RO":
-                    sp.unknown.add(p_); sp.files.pop(p_, None); sp.flushed.pop(p_, None); sp.touched.add(p_)
+                    sp.unknown.add(p_); sp.files.pop(p_, None); sp.flushed.pop(p_, None); sp.touched.add(p_); sp.wstamp.pop(p_, None)
             sp.open.clear(); sp.dslot.clear(); vols.clear()
         elif kind == "mkdir" and okk and op[1] in sp.dslot:
             s11 = sfn_parse(unhexname(op[2]))
@@ -160,14 +187,14 @@ def run_spec(tr, dev0, slot_of_vol, checks=("read", "state")):
                     sp.touched.add(path)
                 if mode in ("RWT", "RWCT") and existed:
                     sp.files[path] = bytearray(); sp.touched.add(path)
-                    sp.flushed.pop(path, None)
+                    sp.flushed.pop(path, None); sp.wstamp.pop(path, None)
                 pos = len(sp.files[path]) if (mode in ("RWA", "RWCA") and existed) else 0
                 sp.open[bind] = dict(path=path, pos=pos, mode=mode)
         elif kind == "delete" and okk and op[1] in sp.dslot:
             s11 = sfn_parse(unhexname(op[2]))
             if s11:
                 path = sp.dslot[op[1]] + "/" + s11.decode("latin-1").rstrip()
-                sp.files.pop(path, None); sp.flushed.pop(path, None); sp.touched.add(path); sp.deleted.add(path)
+                sp.files.pop(path, None); sp.flushed.pop(path, None); sp.touched.add(path); sp.deleted.add(path); sp.wstamp.pop(path, None)
         elif kind in ("write", "iowrite") and op[1] in sp.open:
             f = sp.open[op[1]]
             data = pattern(int(op[2]), int(op[3]))
@@ -190,6 +217,23 @@ def run_spec(tr, dev0, slot_of_vol, checks=("read", "state")):
                     f["pos"] = new_off
                     if n:
                         sp.touched.add(f["path"]); sp.flushed.pop(f["path"], None)
+                    # modification time = the clock value at the last write (the tick this call consumed last)
+                    if okk and kind == "write":        # a zero-length write is a write too: the crate stamps it
+                        clk1, files1 = int_fields(tr.intl[k])
+                        clk0, _ = int_fields(tr.intl[k - 1]) if k > 0 else (None, {})
+                        hv = tr.handle(op[1])
+                        if clk1 is not None and clk0 is not None and hv in files1:
+                            if clk1 <= clk0:
+                                problems.append("op %d: a successful write of %d bytes did not read the clock (modification time cannot be the time of this write)" % (k, n))
+                                sp.wstamp.pop(f["path"], None)
+                            else:
+                                if files1[hv]["mtime"] != clock_ts(clk1 - 1):
+                                    problems.append("op %d: after a successful write the file's modification time is %s, the clock value of this write is %s" % (k, files1[hv]["mtime"], clock_ts(clk1 - 1)))
+                                sp.wstamp[f["path"]] = clock_ts(clk1 - 1)
+                        else:
+                            sp.wstamp.pop(f["path"], None)
+                    elif n or not okk:
+                        sp.wstamp.pop(f["path"], None)
                 if kind == "iowrite" and okk and int(r[2]) != len(data):
                     problems.append("op %d: embedded-io write returned %s for a buffer of %d" % (k, r[2], len(data)))
         elif kind in ("read", "ioread") and op[1] in sp.open:
